@@ -18,6 +18,9 @@ var ErrInjected = errors.New("simstore: injected storage failure")
 // Crash is the sentinel panic value that unwinds tasks of a crashed node.
 type crashT struct{}
 
+func (*crashT) Error() string  { return simrt.CrashMarker }
+func (*crashT) String() string { return simrt.CrashMarker }
+
 var Crash = &crashT{}
 
 // OpRec is one recorded operation (for enumeration pilots and traces).
